@@ -309,6 +309,7 @@ class Interp:
         self.statics = {}         # static name -> cell id (shared by all states: created lazily in initial state only)
         self.override = []        # (regex, fn) property-specific call overrides
         self.seed = 0
+        self.feas_timeout_ms = 5000
 
     # ------------------------------------------------------------------ scalars
     def mk_int(self, v, ty):
@@ -548,6 +549,7 @@ class Interp:
         t0 = time.time()
         self.stats['feas_queries'] += 1
         s = self.solver
+        s.set('timeout', self.feas_timeout_ms)
         s.push()
         for p in st.pc:
             s.add(p)
@@ -557,7 +559,10 @@ class Interp:
         s.pop()
         self.stats['solver_s'] += time.time() - t0
         if r == z3.unknown:
-            raise Inconclusive('solver unknown in feasibility check')
+            # over-approximate: keep the path. Its obligations still carry the full path condition, so an
+            # infeasible path can only add (vacuously true) obligations, never hide or invent a violation.
+            self.stats['feas_unknown'] = self.stats.get('feas_unknown', 0) + 1
+            return True
         return r == z3.sat
 
     # ------------------------------------------------------------------ memory
